@@ -15,15 +15,15 @@ import (
 
 // EngineSpec describes one history-engine check.
 type EngineSpec struct {
-	ID       string
-	Gen      func(r *hx.Rand, thorough bool) History
-	Oracles  Oracles
-	NQuick   int
+	ID        string
+	Gen       func(r *hx.Rand, thorough bool) History
+	Oracles   Oracles
+	NQuick    int
 	NThorough int
 	// Nontrivial decides whether a run counts as a non-trivial case.
 	Nontrivial func(st RunStats) bool
 	// Extra is called after each run (model correspondence etc.); it may add findings.
-	Extra func(h History, st RunStats, res *hx.Result, mu *sync.Mutex)
+	Extra   func(h History, st RunStats, res *hx.Result, mu *sync.Mutex)
 	Workers int
 }
 
